@@ -157,6 +157,10 @@ func (s setter) coq() string {
 		return "SJarPlain"
 	case "jarstore":
 		return fmt.Sprintf("(SJarStore %d)", s.Val)
+	case "maptouch":
+		return fmt.Sprintf("(SMapTouch %d)", s.F)
+	case "jarnil":
+		return "SJarNil"
 	case "sliceset":
 		return fmt.Sprintf("(SSliceSet %d %s)", s.F, coqNats(s.Vs))
 	case "tlsedit":
@@ -398,6 +402,9 @@ func (o *refObj) apply(s setter) {
 		if o.jar != nil {
 			*o.jar = append(*o.jar, s.Val)
 		}
+	case "maptouch": // an empty map: nothing changes
+	case "jarnil":
+		o.jar, o.fact = nil, false // cookies switched off: no jar, and clones get none either
 	case "sliceset":
 		o.sl[s.F] = cpInts(s.Vs)
 	case "tlsedit":
@@ -1072,6 +1079,17 @@ func (e *env) clientSet(c *req.Client, s setter, variant int) error {
 			ws = append(ws, e.twrap(v))
 		}
 		c.GetTransport().WrapRoundTripFunc(ws...)
+	case "maptouch":
+		switch s.F {
+		case 1:
+			c.SetCommonQueryParams(map[string]string{})
+		case 2:
+			c.SetCommonFormData(map[string]string{})
+		case 3:
+			c.SetCommonPathParams(map[string]string{})
+		}
+	case "jarnil":
+		c.SetCookieJar(nil)
 	case "jarfactory":
 		c.SetCookieJarFactory(func() *cookiejar.Jar { j, _ := cookiejar.New(nil); return j })
 	case "jarplain":
